@@ -1324,13 +1324,40 @@ func (w *c02World) directed(id int) bool {
 		w.referenceSome()
 		w.crash(nil)
 		w.readAll()
+	case 11: // the slot a writer reserved is vacated (RemoveSector) and handed to another sector; the writer then fails
+		w.res.desc = "directed: a failing writer's rollback after its slot was vacated and reused"
+		w.addVolume(1)
+		h := w.startWrite(1)
+		w.removeSector(1) // vacates the only slot
+		w.write(2, false) // ... which now holds sector 2
+		w.sync()
+		w.addTemp([]int{2}, 100)
+		if h != nil {
+			w.finishWrite(h, true) // the rollback must leave the slot's new tenant alone
+		}
+		w.readAll()
+		w.crash(nil)
+		w.readAll()
+	case 12: // ... vacated by a migration instead (the volume is being emptied)
+		w.res.desc = "directed: a failing writer's rollback after its slot was migrated away and reused"
+		a := w.addVolume(1)
+		h := w.startWrite(1)
+		w.addVolume(1)
+		w.resize(a, 0) // fails or migrates; either way the run is recorded
+		w.write(2, false)
+		w.sync()
+		w.addTemp([]int{2}, 100)
+		if h != nil {
+			w.finishWrite(h, true)
+		}
+		w.readAll()
 	default:
 		return false
 	}
 	return true
 }
 
-const c02Directed = 11
+const c02Directed = 13
 
 func (w *c02World) volumeIDs() (ids []int64) {
 	vols, err := w.db.Volumes()
